@@ -1,9 +1,9 @@
 (* C10, support clause: every point a batch evaluates is a proposal that passed the unit-cube test and the shell's own
    bound, was never evaluated or stored before, and the likelihood values recorded for the batch are those of exactly
    these points. *)
-From Coq Require Import List Arith Bool Lia PeanoNat.
+From Coq Require Import List Arith Bool Lia PeanoNat Permutation.
 Import ListNotations.
-Require Import NV.Base NV.Shell2 NV.Shell2Inv.
+Require Import NV.Base NV.Shell2 NV.Shell2Inv NV.Shell2Uniq.
 
 Section Support.
 Variable contains : bid -> pid -> bool.
@@ -52,5 +52,38 @@ Proof.
   intros _. eexists; eexists. split; [exact Ev|]. split; [eapply do_rounds_kept; exact Ed|]. split.
   - eapply (do_rounds_support _ _ _ _ _ _ _ _ Ed). constructor.
   - eexists; eexists; split; [exact En|reflexivity].
+Qed.
+
+(* outside transfer mode the candidate list is not touched *)
+Lemma do_rounds_from known b later prov : forall rounds a a',
+  do_rounds contains in_cube n_batch known b later prov false rounds a = Some a' -> a_from a' = a_from a.
+Proof.
+  induction rounds as [|r rs IH]; simpl; intros a a' E.
+  - destruct (Nat.eqb (length (a_kept a)) n_batch); inversion E; subst; reflexivity.
+  - repeat match type of E with (if ?c then None else _) = _ => destruct c; [discriminate|] end.
+    destruct (r_used r); [|discriminate]. destruct (r_replaced r); [|discriminate].
+    match type of E with (if ?c then None else _) = _ => destruct c; [discriminate|] end.
+    apply IH in E. exact E.
+Qed.
+
+(* after exploration every likelihood call yields exactly one stored sample: a batch appends its n_batch evaluated points
+   to one shell and nothing else changes the stored set, so "calls minus stored samples" is constant from then on *)
+Theorem batch_stored s idx rounds vals s' :
+  explored s = true -> step s (EvAddSamples idx rounds vals) = Some s' ->
+  length (all_pts s') = length (all_pts s) + n_batch /\ n_like s' = n_like s + n_batch /\
+  t_pts s' = t_pts s /\ t_from s' = t_from s.
+Proof.
+  intros Hx. simpl. unfold add_samples. brk. rewrite Hx. destruct idx as [i|]; simpl; [|discriminate].
+  brk. brk. brk.
+  match goal with H : do_rounds _ _ _ _ _ _ _ _ _ _ = Some _ |- _ => rename H into Ed end.
+  match goal with H : nth_error (shells s) _ = Some _ |- _ => rename H into En end.
+  pose proof Ed as Hk. apply do_rounds_kept in Hk.
+  pose proof Ed as Hf. apply do_rounds_from in Hf. simpl in Hf.
+  match goal with |- context [a_used ?a] => destruct (a_used a) eqn:Hu end; [|discriminate].
+  intros E; inversion E; subst; clear E. unfold all_pts; simpl. repeat split; try lia.
+  - match goal with |- context [upd_nth i ?f _] =>
+      pose proof (cat_upd i (a_kept a) f (fun x => eq_refl) (shells s) _ En) as Hp end.
+    apply Permutation_length in Hp. unfold cat in Hp. rewrite Hp, app_length. lia.
+  - exact Hf.
 Qed.
 End Support.
